@@ -415,7 +415,7 @@ pub fn run(tier: Tier) -> i32 {
     let mut rep = Report::new("C03", tier, "exploration");
     let cfgs = configs();
     rep.set("rule", json!("Bounded-exhaustive XML generation rooted at <svg xmlns=SVG>: (attrs) 20 element names (SVG and svgdx vocabulary) x 24 attribute atoms (svgdx-looking, namespaced, entity/char refs, quotes, unicode, blanks) singly and in ordered pairs, and on the root; (content) all sequences of <= 2 (thorough 4) content atoms from 12 text atoms, comments, CDATA, PI, empty and non-empty elements, directly in the root, inside <g> and inside <text>; (prolog) XML declaration x doctype x comments/PIs before and after the root x line-ending variants; every document under 16 configurations. (nested) every content sequence of <= 2 atoms inside a namespaced <svg> embedded at 5 positions of an svgdx document under 3 configurations. Oracle: the independent strict XML reader yields the same canonical event stream (names, attribute name->value maps, merged character data, comments, CDATA, PIs, in order) for input (sub)tree and output. Non-trivial = accepted, infoset equal and more than an empty root."));
-    rep.set("also_later", json!("Rounds 3-5 added a declared-entities leg: real SVG whose namespace is an entity of its own DOCTYPE (also with the Adobe Illustrator header) is passed through byte for byte; an embedded namespaced <svg> using such an entity comes out with the replacement text."));
+    rep.set("also_later", json!("Rounds 3-5 added a declared-entities leg: real SVG whose namespace is an entity of its own DOCTYPE (also with the Adobe Illustrator header) is passed through byte for byte; an embedded namespaced <svg> using such an entity comes out with the replacement text. Round 7 (seed C03e) added 156 generated documents: a reference-like text inside a CDATA section / comment / processing instruction of an embedded namespaced <svg>, at every distance 0..12 from the end of the region and at its start, stays literal while a real reference next to it is replaced."));
     rep.set("also", json!("Also: embedded namespaced <svg> written as an empty element, with svgdx-looking attributes, in 9 embedding positions (first child, between shapes, in <g>, <loop>, fragment, after <defaults>, in <if>, <defs>, <a>); DOCTYPE with internal-subset entities referenced from the root start tag, child attributes and text; '<' inside comments / literals / PIs of the internal subset."));
     let a = space_attrs(tier);
     let st = run_space(a.len(), |i| check_doc(&a[i], "attrs", &cfgs));
@@ -440,6 +440,26 @@ pub fn run(tier: Tier) -> i32 {
         ("embedded/entity-in-start-tag", format!("<!DOCTYPE svg [<!ENTITY w \"10\">]><svg><svg xmlns=\"{NS}\" width=\"&w;\"/></svg>"), Some(format!("<svg xmlns=\"{NS}\" width=\"10\"/>"))),
         ("embedded/entity-in-content", format!("<!DOCTYPE svg [<!ENTITY w \"10\">]><svg><svg xmlns=\"{NS}\"><rect width=\"&w;\"/><text>&w;</text></svg></svg>"), Some(format!("<svg xmlns=\"{NS}\"><rect width=\"10\"/><text>10</text></svg>"))),
     ];
+    // seventh round (seed C03e): what looks like a reference inside a CDATA section, a comment or a processing instruction
+    // of an embedded namespaced <svg> is literal text, wherever in the region it stands (0 .. 12 bytes before its end,
+    // and at its very start), for entity names of 1 and 4 characters
+    let mut edocs = edocs;
+    for ename in ["c", "col4"] {
+        for tail in 0..=12usize {
+            for (kind, open, close) in [("cdata", "<![CDATA[", "]]>"), ("comment", "<!--", "-->"), ("pi", "<?pi ", "?>")] {
+                for at_start in [false, true] {
+                    let pad = "xyzxyzxyzxyz";
+                    let region = if at_start { format!("{open}&{ename};{}{close}", &pad[..tail]) } else { format!("{open}.a{{fill:&{ename};{}{close}", &pad[..tail]) };
+                    let name: &'static str = Box::leak(format!("embedded/literal-region/{kind}/{}{}", if at_start { "at-start-" } else { "" }, if tail < 10 { "near-end" } else { "inside" }).into_boxed_str());
+                    edocs.push((
+                        name,
+                        format!("<!DOCTYPE svg [<!ENTITY {ename} \"red\">]><svg><rect wh=\"10\" fill=\"&{ename};\"/><svg xmlns=\"{NS}\"><style>{region}</style><rect fill=\"&{ename};\"/></svg></svg>"),
+                        Some(format!("<style>{region}</style><rect fill=\"red\"/>")),
+                    ));
+                }
+            }
+        }
+    }
     let st = run_space(edocs.len(), |i| {
         let (name, doc, want) = &edocs[i];
         let out = run_bytes(doc.as_bytes(), &Cfg::plain());
